@@ -225,3 +225,5 @@ def check(ctx, run):  # noqa: F811
     _check_before_histories(ctx, run)
     from ..registry import histories_rule
     histories_rule(ctx, run, "C12.R9")
+    from ..registry import resimulation_rule
+    resimulation_rule(ctx, run, "C12.R9", only=("resim-payoff",))
